@@ -224,7 +224,7 @@ def e2_checks(pid, tier, seed):
         for cut in range(8, 13):
             out.append(spec('cut_%d' % cut, 'chk_cut', [cut, 2] + S(2) + S(2), 'frame of a symbolic 2-byte payload cut after %d bytes (assumed not inside a 0x1b run / escape), then a frame with 2 symbolic payload bytes' % cut))
         # cut-off part containing an escaped 1b1b1b1b (wire length != decoded length)
-        for cut in ((16, 17, 18) if q else (16, 17, 18, 19, 20)):
+        for cut in ((17, 18, 19) if q else (17, 18, 19, 20)):
             out.append(spec('cut_esc_%d' % cut, 'chk_cut', [cut, 6, 0x1b, 0x1b, 0x1b, 0x1b] + S(2) + S(2), 'frame of payload 1b1b1b1b + 2 symbolic bytes cut after %d bytes (after the inserted escape), then a frame with 2 symbolic payload bytes' % cut))
     elif pid == 'C14':
         K = 5 if q else 7
